@@ -9,7 +9,7 @@ tree == the model's expected tree (paths, types, modes, ids, mtimes, targets, de
 hard-link groups, xattrs, byte-identical contents); rdsquashfs -u (unpack as root), -c and -d agree.
 Fault-free and benign-fault runs are counted separately.
 """
-import os, sys, json, re, hashlib, stat
+import os, sys, json, re, hashlib, stat, subprocess
 from common import *
 import vfbuild, pipelines, treegen, sqfsdec
 
@@ -289,30 +289,85 @@ def work(a):
 
 
 def unrepresentable_checks(bdir, seed):
-    """inputs the format cannot represent must be refused, never stored altered"""
+    """boundary inputs named by the property: over-long names and > 65536 distinct ids must be refused (never stored altered);
+    multiples of 512 distinct xattr sets, exactly 65536 ids and a > 4 GiB sparse file (thorough) must round-trip"""
     out = []
+    n = 0
+    gens = os.path.join(bdir, "asan", "sim-gensquashfs")
+    plain = os.path.join(bdir, "plain", "sim-gensquashfs")
     with Scratch("c01u") as s:
-        cases = {
-            "name-65537-bytes": b"file /%s 0644 0 0 in\n" % (b"n" * 65537),
-            "name-256-bytes-ok": b"file /%s 0644 0 0 in\n" % (b"n" * 256),
-        }
         open(os.path.join(s, "in"), "wb").write(b"x")
-        for name, body in cases.items():
+
+        def pack(body, extra=(), binary=gens, env=None):
             open(os.path.join(s, "pack.txt"), "wb").write(body)
             if os.path.exists(os.path.join(s, "o.sqfs")):
                 os.unlink(os.path.join(s, "o.sqfs"))
-            r = run_sim(os.path.join(bdir, "asan", "sim-gensquashfs"), ["-F", "pack.txt", "-D", ".", "-q", "o.sqfs"], cwd=s, plan="seed 1\nsched rr\n")
-            ok_expected = name.endswith("-ok")
-            if ok_expected:
-                if r.rc != 0:
-                    out.append((name, "refused a representable input: %s" % r.stderr[-100:]))
+            return run_sim(binary, ["-F", "pack.txt", "-D", ".", "-q", "-c", "gzip"] + list(extra) + ["o.sqfs"], cwd=s, plan="seed 1\nsched rr\n", timeout=600, cpu=300, env=env)
+
+        r = pack(b"file /%s 0644 0 0 in\n" % (b"n" * 65537)); n += 1
+        if r.rc == 0:
+            out.append(("name-65537-bytes", "accepted an unrepresentable input with exit 0"))
+        r = pack(b"file /%s 0644 0 0 in\n" % (b"n" * 256)); n += 1
+        img = sqfsdec.decode(os.path.join(s, "o.sqfs")) if r.rc == 0 else None
+        if r.rc != 0 or not img.ok() or (b"n" * 256) not in img.tree:
+            out.append(("name-256-bytes-ok", "a 256 byte name was refused or stored altered"))
+        # more distinct ids than the 16 bit id table can hold
+        r = pack(b"".join(b"pipe /p%d 0644 %d 0\n" % (i, i + 1) for i in range(65537)), binary=plain); n += 1
+        if r.rc == 0:
+            out.append(("ids-65537", "65538 distinct ids accepted with exit 0"))
+        elif not r.stderr.strip():
+            out.append(("ids-65537-silent", "refused without diagnostic"))
+        # distinct xattr sets across the 512-descriptor block boundary (1100 sets, some sharing a long value)
+        body = b"".join(b"file /f%04d 0644 0 0 in\n" % i for i in range(1100))
+        xa = b"".join(b"# file: f%04d\nuser.n=0x%08x\nuser.shared=0x%s\n\n" % (i, i, b"ab" * 200) for i in range(1100))
+        open(os.path.join(s, "xattr.txt"), "wb").write(xa)
+        r = pack(body, ["-A", "xattr.txt"], binary=plain); n += 1
+        if r.rc != 0:
+            out.append(("xattr-1100-sets", "refused: %s" % r.stderr[-100:]))
+        else:
+            img = sqfsdec.decode(os.path.join(s, "o.sqfs"))
+            bad = not img.ok() or img.invalid
+            if not bad:
+                for i in (0, 511, 512, 513, 1023, 1024, 1099):
+                    nd = img.tree.get(b"f%04d" % i)
+                    if nd is None or nd.xattrs != {b"user.n": i.to_bytes(4, "big"), b"user.shared": b"\xab" * 200}:
+                        bad = True
+            if bad:
+                out.append(("xattr-1100-sets", "xattrs do not read back: %s" % ((img.errors or img.invalid or ["value mismatch"])[0])))
+        if tier() == "thorough":
+            r = pack(b"".join(b"pipe /p%d 0644 %d 0\n" % (i, i + 1) for i in range(65535)), binary=plain); n += 1
+            img = sqfsdec.decode(os.path.join(s, "o.sqfs")) if r.rc == 0 else None
+            if r.rc != 0 or not img.ok() or img.invalid or img.tree[b"p65534"].uid != 65535:
+                out.append(("ids-65536-ok", "65536 distinct ids refused or stored altered"))
+            # > 4 GiB file made of holes with data at both ends
+            os.makedirs(os.path.join(s, "tree"))
+            size = (4 << 30) + 12345
+            with open(os.path.join(s, "tree", "big"), "wb") as f:
+                f.write(b"head")
+                f.seek(size - 4)
+                f.write(b"tail")
+            if os.path.exists(os.path.join(s, "o.sqfs")):
+                os.unlink(os.path.join(s, "o.sqfs"))
+            r = run_sim(plain, ["-D", "tree", "-q", "-c", "gzip", "-b", "1048576", "o.sqfs"], cwd=s, plan="seed 1\nsched rr\n", timeout=1200, cpu=900); n += 1
+            if r.rc != 0:
+                out.append(("sparse-4GiB", "refused: %s" % r.stderr[-100:]))
+            else:
+                img = sqfsdec.decode(os.path.join(s, "o.sqfs"), want_content=False)
+                nd = img.tree.get(b"big") if img.ok() else None
+                if nd is None or nd.size != size or img.invalid:
+                    out.append(("sparse-4GiB", "size reads back as %s: %s" % (getattr(nd, "size", None), (img.errors or img.invalid or [""])[0])))
                 else:
-                    img = sqfsdec.decode(os.path.join(s, "o.sqfs"))
-                    if not img.ok() or (b"n" * 256) not in img.tree:
-                        out.append((name, "stored altered"))
-            elif r.rc == 0:
-                out.append((name, "accepted an unrepresentable input with exit 0"))
-    return out, len(cases)
+                    import hashlib
+                    rr = subprocess.run([os.path.join(bdir, "plain", "sim-rdsquashfs"), "-c", "big", "o.sqfs"], cwd=s, stdout=subprocess.PIPE)
+                    h = hashlib.sha256()
+                    h.update(b"head"); rem = size - 8
+                    z = b"\0" * (1 << 20)
+                    while rem > 0:
+                        k = min(rem, len(z)); h.update(z[:k]); rem -= k
+                    h.update(b"tail")
+                    if hashlib.sha256(rr.stdout).hexdigest() != h.hexdigest():
+                        out.append(("sparse-4GiB", "rdsquashfs -c returns different bytes (%d)" % len(rr.stdout)))
+    return out, n
 
 
 def rerun(bdir, casespec, v):
